@@ -168,6 +168,10 @@ func (s *streamWriter) init() {
 			slog.Debug("remote using TLS for writing")
 			rawconn, err = tls.Dial("tcp", s.writeToAddr, s.tlsConfig)
 			if err != nil {
+				// tls.Dial returns a nil *tls.Conn with the error: stored in the net.Conn
+				// variable that is a non-nil interface, and the "rawconn == nil" below
+				// would take a peer that cannot be reached for a connection.
+				rawconn = nil
 				d := time.Duration(delay * time.Duration(i*2))
 				slog.Error("tls.Dial", "err", err, "remote", s.writeToAddr, "retry", i, "max", maxRetries, "delay", d)
 				time.Sleep(d)
